@@ -194,6 +194,34 @@ def run(tier):
         cmds += ["sumoff 0", "sumoff 1", "wrapreport"]
         cases.append(cmds)
         meta.append(("content", 0, "name /dev/null", variant, "/dev/null", 0))
+    # the SAME path holding other contents the next time (same length, a constant changed near the end / the beginning; longer; shorter;
+    # empty): whatever the library remembers about a file it has read (a mapping, a parse, a size) must not survive the file's rewriting
+    rwdir = os.path.join(wd, "rewritten")
+    os.makedirs(rwdir, exist_ok=True)
+    for k in range(40 if not full else 1500):
+        nl = rnd.choice([1, 3, 40, 300, 1500])
+        body = ["mov rax, 0x%016x" % rnd.getrandbits(63) for _ in range(nl)]
+        c1 = "\n".join(body) + "\nret\n"
+        b2 = list(body)
+        how = k % 5
+        if how == 0:
+            b2[-1] = b2[-1][:-1] + ("1" if b2[-1][-1] != "1" else "2")     # same length, last constant changed in its last digit
+        elif how == 1:
+            b2[0] = b2[0][:-1] + ("1" if b2[0][-1] != "1" else "2")
+        elif how == 2:
+            b2 = b2 + ["nop"] * rnd.randrange(1, 50)
+        elif how == 3:
+            b2 = b2[:max(0, len(b2) // 2)]
+        else:
+            b2 = []
+        c2 = "\n".join(b2 + ["ret"]) + "\n" if how != 4 else ""
+        pth = os.path.join(rwdir, "rw%d.asm" % k)
+        variant = "file" if k % 2 else "filecnt"
+        fc = (lambda t: ["file 0 %s" % pth, "asm 1 %s" % common.hx(t)]) if variant == "file" else (lambda t: ["filecnt 0 16 %s" % pth, "cnt 1 16 %s" % common.hx(t)])
+        cmds = ["wrap reset", "wrap guardfiles 1", "new 0 int", "new 1 int", "wfile 0 %s %s" % (pth, common.hx(c1))] + fc(c1) + ["sumoff 0", "sumoff 1",
+                "wfile 0 %s %s" % (pth, common.hx(c2)), "setoff 0 0", "setoff 1 0"] + fc(c2) + ["sumoff 0", "sumoff 1"]
+        cases.append(cmds)
+        meta.append(("rewritten", nl, how, variant, pth, 0))
     # several files one after the other on the SAME instance (longer, then shorter, then empty, line-aligned or not): what an
     # earlier file call left behind (a cached mapping, a stale tail) must not show in a later one
     made = [(m[4], m[1]) for m in meta if m[0] == "content" and m[3] == "file" and not m[2].startswith(("raw", "name"))]
@@ -289,6 +317,21 @@ def run(tier):
                 v.distinct((a, b, variant))
                 if v.cov["evaluations"] % 150 == 1:
                     v.sample({"size": a, "ending": b, "entry": variant, "rc": f[1], "offset": f[3]})
+        elif kind == "rewritten":
+            stats["rewritten_file_cases"] = stats.get("rewritten_file_cases", 0) + 1
+            bad = None
+            for step, base in ((1, 5), (2, 12)):
+                f, s_, s0, s1 = recs[base].split(), recs[base + 1].split(), recs[base + 2].split(), recs[base + 3].split()
+                if f[1] != s_[1]:
+                    bad = ("rewritten:rc:file=%s,string=%s" % (f[1], s_[1]), "reading %d of the path: %s | %s" % (step, recs[base], recs[base + 1]))
+                elif f[3] != s_[3] or s0[1:] != s1[1:] or f[4] != s_[4]:
+                    bad = ("rewritten:offset/bytes/count-differ", "reading %d of the path (rewritten between the readings: %s): %s %s | %s %s" % (step, ["last constant", "first constant", "longer", "shorter", "empty"][b], recs[base], recs[base + 2], recs[base + 1], recs[base + 3]))
+                if bad:
+                    break
+            if bad:
+                v.violation(case, bad[0], bad[1])
+            else:
+                v.distinct(("rw", a, b, variant, path))
         elif kind == "sequence":
             stats["sequence_cases"] = stats.get("sequence_cases", 0) + 1
             bad = None
@@ -339,7 +382,7 @@ def run(tier):
                 v.distinct((kind, off, b, os.path.basename(path)))
     v.cov["rule"] = ("file contents of EVERY size 0..64 and every size within +/-16 of 1, 2 and 3 pages x 6 endings (newline, none, inside a comment, inside an instruction, a complete instruction / ret as last line without newline; CRLF lines inside) x both file entry points, plus valid programs with byte-level damage (byte order marks and other prefixes, any byte value 1..255 inserted / replaced at the beginning, the end, line starts or anywhere, odd line separators), "
                      "differentially against the string entry points on the same content under the same settings (option combination, chunk fitting, start offset; the contents contain option-sensitive lines) (rc, offset, count, FNV of the code); ld --wrap mmap puts a PROT_NONE page right after every non-executable mapping the "
-                     "library creates, so a missing terminator faults deterministically; the same file reached through symbolic links (chain, relative, symlinked directory), a hard link, './' '//' 'dir/..' components, blanks and UTF-8 in the name, a 220-character path, and /dev/null; missing / directory / ENOTDIR paths must fail and leave the instance usable; asm_create_bin_file at offsets 0,1,2,19,4095..4097,6000,20000,65535..65537,2^20+5 must equal [0,offset), also onto existing longer / shorter files, through a symlink, and twice to the same path (more code; offset moved back); sequences of 2-6 file calls of (mostly) decreasing size, ending with an empty file, on ONE instance, each step compared with the string entry point")
+                     "library creates, so a missing terminator faults deterministically; the same file reached through symbolic links (chain, relative, symlinked directory), a hard link, './' '//' 'dir/..' components, blanks and UTF-8 in the name, a 220-character path, and /dev/null; missing / directory / ENOTDIR paths must fail and leave the instance usable; asm_create_bin_file at offsets 0,1,2,19,4095..4097,6000,20000,65535..65537,2^20+5 must equal [0,offset), also onto existing longer / shorter files, through a symlink, and twice to the same path (more code; offset moved back); the same path read twice by one instance with the file rewritten in between (same length with one digit changed, longer, shorter, empty); sequences of 2-6 file calls of (mostly) decreasing size, ending with an empty file, on ONE instance, each step compared with the string entry point")
     v.cov["exhaustive"] = True
     v.cov.update(stats)
     return v.finish(None, stats["content_cases"] > 300 and stats["guarded_mappings"] > 100, "too few file cases / guard never active: %r" % stats)
